@@ -52,7 +52,7 @@ type negRec struct {
 	EnableSeen   int
 	EnableOK     bool
 	EnableAnswer string
-	Established  bool // server's view: every step the client asked for got its success answer and the client stopped asking
+	Established  bool     // server's view: every step the client asked for got its success answer and the client stopped asking
 	Order        []string // order / protocol violations noticed by the script
 	After        []string // elements received after a failure answer (other than stream close)
 	Requests     []string // names of the client's requests in order
@@ -541,7 +541,7 @@ func (s *srvConn) serve(cfg *negCfg, r *negRec) {
 				r.Order = append(r.Order, "enable requested although this stream's features do not offer stream management")
 			}
 			r.EnableSeen++
-			a := cfg.pick("enable", "enabled-resume-true", "enabled-resume-false", "enabled-no-resume", "failed", "failed-no-condition", "unexpected", "close", "malformed", "enabled-unclosed", "enabled-resume-true-no-id", "enabled-resume-true-empty-id")
+			a := cfg.pick("enable", "enabled-resume-true", "enabled-resume-false", "enabled-no-resume", "failed", "failed-no-condition", "unexpected", "close", "malformed", "enabled-unclosed", "enabled-resume-true-no-id", "enabled-resume-true-empty-id", "enabled-id-no-resume", "enabled-id-resume-false")
 			ok := strings.HasPrefix(a, "enabled") && a != "enabled-unclosed"
 			r.answer("enable", a, ok)
 			r.EnableAnswer = a
@@ -556,6 +556,11 @@ func (s *srvConn) serve(cfg *negCfg, r *negRec) {
 				s.send(fmt.Sprintf("<enabled xmlns='%s' resume='false'/>", nsSM))
 			case "enabled-no-resume":
 				s.send(fmt.Sprintf("<enabled xmlns='%s'/>", nsSM))
+			case "enabled-id-no-resume":
+				// an id, and resumption not granted (no resume attribute / resume='false')
+				s.send(fmt.Sprintf("<enabled xmlns='%s' id='%s'/>", nsSM, id))
+			case "enabled-id-resume-false":
+				s.send(fmt.Sprintf("<enabled xmlns='%s' id='%s' resume='false'/>", nsSM, id))
 			case "enabled-resume-true-no-id":
 				// resumption allowed, and no id to resume with: there is nothing to present later
 				s.send(fmt.Sprintf("<enabled xmlns='%s' resume='true'/>", nsSM))
